@@ -178,6 +178,73 @@ def run(chk, F, tier):
     chk.floor("shared root components", nroot, 10)
     chk.unit("shared roots", len(roots))
 
+    # R38c: no shared mutable state behind &self in the analysis the readers share
+    chk.rule("R38c", "no type contained in the shared analysis (EmmyLuaAnalysis, transitively through fields and generic arguments) "
+                     "has a field with interior mutability (Mutex/RwLock/Atomic*/RefCell/Cell/Once*/Lazy*/UnsafeCell), unless audited: "
+                     "concurrent `&self` queries can only influence each other through such a field")
+    INTERIOR = ("Mutex<", "RwLock<", "RefCell<", "::Cell<", "::atomic::Atomic", "OnceCell<", "OnceLock<", "LazyLock<", "LazyCell<",
+                "UnsafeCell<", "::Once>", "::Once,", "Condvar", "mpsc::", "DashMap<", "AtomicRefCell<")
+    INTERIOR_AUDITED = {
+        # "Type.field": "reason"  (none on the current tree)
+    }
+    seen_adts = set()
+    todo = ["emmylua_code_analysis::EmmyLuaAnalysis"]
+    nfields = 0
+    while todo:
+        path = todo.pop()
+        if path in seen_adts or path in PER_THREAD:
+            continue
+        seen_adts.add(path)
+        adt = F.adts.get(path)
+        if adt is None:
+            continue
+        types = adt["_types"]
+        for v in adt["variants"]:
+            for f in v["fields"]:
+                nfields += 1
+                fty = types[f["ty"]]
+                key = "%s.%s" % (path.split("::")[-1], f["name"])
+                hit = [x for x in INTERIOR if x in fty[0]]
+                if hit and key not in INTERIOR_AUDITED:
+                    chk.violation("R38c", key,
+                                  "field `%s: %s` of %s (contained in the shared analysis) has interior mutability (%s): a `&self` query "
+                                  "can write it, so concurrent queries can change each other's results" % (f["name"], fty[0], path, hit[0].strip("<:,>")),
+                                  "%s:%s" % (adt["file"], adt["line"]), witness={"field_type": fty[0]})
+                else:
+                    chk.ok("R38c", key, {"rule": "R38c", "field": key, "verdict": INTERIOR_AUDITED.get(key, "no interior mutability in the field's type")})
+                # walk generic arguments and nested ADTs
+                st = [f["ty"]]
+                seen_t = set()
+                while st:
+                    ti = st.pop()
+                    if ti in seen_t:
+                        continue
+                    seen_t.add(ti)
+                    t = types[ti]
+                    if t[2] == "adt" and t[3] in F.adts:
+                        todo.append(t[3])
+                    st.extend(t[4] or [])
+    STATIC_AUDITED = {
+        "emmylua_code_analysis::_RUST_I18N_BACKEND": "rust_i18n macro: once_cell Lazy, written once on first use, read-only afterwards",
+        "emmylua_parser::_RUST_I18N_BACKEND": "rust_i18n macro: once_cell Lazy, written once on first use, read-only afterwards",
+        "emmylua_parser_desc::_RUST_I18N_BACKEND": "rust_i18n macro: once_cell Lazy, written once on first use, read-only afterwards",
+    }
+    nstat = 0
+    for sp, sd in sorted(F.statics.items()):
+        if sd["crate"] not in ("emmylua_code_analysis", "emmylua_parser", "emmylua_parser_desc"):
+            continue
+        nstat += 1
+        tstr = sd["_types"][sd["ty"]][0]
+        shared_mut = sd["mut"] or not sd["freeze"] or sd["tls"]
+        chk.check(not shared_mut or sp in STATIC_AUDITED, "R38c", "static:" + sp,
+                  "static `%s: %s` is %s: state shared by every query outside the analysis value, not in the audited table"
+                  % (sp, tstr, "`static mut`" if sd["mut"] else ("thread-local" if sd["tls"] else "interior-mutable")),
+                  "%s:%s" % (sd["file"], sd["line"]),
+                  sample={"rule": "R38c", "static": sp, "verdict": STATIC_AUDITED.get(sp, "immutable static")})
+    chk.floor("statics of the analysis crates", nstat, 10)
+    chk.floor("fields of types contained in the shared analysis", nfields, 150)
+    chk.unit("types contained in the shared analysis", len(seen_adts))
+
     # R38b
     names = per_thread_closure(F)
     chk.unit("per-thread type closure", len(names))
